@@ -55,6 +55,13 @@ func (r *Runner) Step(op M) error {
 			op = M{"op": "noop", "skipped": "updateAsk of an allocation the shim no longer owns"}
 		}
 	}
+	// ... and never names a new ask with an allocation key that is still alive for ANOTHER application (keys are unique
+	// per pod; a TLC-generated history can ask for it when the model and the core disagree about which asks are left)
+	if !r.AllowIllegal && (gs(op, "op") == "addAsk" || gs(op, "op") == "reportBound") {
+		if a, ok := w.sAsks[gs(op, "key")]; ok && a.App != gs(op, "app") {
+			op = M{"op": "noop", "skipped": "allocation key still in use by another application"}
+		}
+	}
 	w.trackBefore(op)
 	done := make(chan M, 1)
 	go func() { done <- w.Apply(op) }()
